@@ -1,5 +1,6 @@
 """C05  Storage physics: level within [0,size], ends at end level, reported truly."""
 import numpy as np
+import scipy.sparse as sp
 from hypothesis import strategies as st
 
 from .. import core, gen, build, obs, lpkit
@@ -18,9 +19,16 @@ RULE = ("Generated: 1-2 storages (size, charge/discharge rates, charging efficie
         "steps (restarted at every block), -tol <= L <= size+tol, L = end level at the last active step (of every "
         "block), g <= cap_in*dt, h <= cap_out*dt, reported <name>_fill_level = L, <name>_charge = g, "
         "<name>_discharge = -h, min(g,h) = 0 with the no-simultaneous option, runs of L > tol no longer than the "
-        "maximum holding duration. Non-trivial: the storage moves volume and one of {inflow, efficiency < 1, "
-        "start != end, two nodes, blocks, MIP option}. Distinct = distinct spec hash.")
-ASSUMPTIONS = ["coarse frequency / periodicity are not part of this property's quantifier (C13)",
+        "maximum holding duration. (holding, 1 of 4 cases) a storage with a maximum holding duration alone on a grid with "
+        "unequal steps (daily steps across a DST switch, calendar months; some uniform), duration strictly between two "
+        "attainable run lengths: every one of the 2^T patterns of 'level non-zero at the end of step t' is pinned in "
+        "EAO's problem (plus level >= 1 where non-empty) and must be feasible iff each run of non-empty steps lasts "
+        "<= the duration (scipy-HiGHS). Non-trivial: the storage moves volume and one of {inflow, efficiency < 1, "
+        "start != end, two nodes, blocks, MIP option}; (holding) all 2^T patterns decided on a grid with unequal steps. "
+        "Distinct = distinct spec hash.")
+ASSUMPTIONS = ["maximum holding duration: the time held is the sum of the lengths of consecutive steps with a non-zero level at their end "
+               "(EAO's discretisation); both directions are demanded - never longer (statement) and every run up to the duration admitted (documented meaning of the parameter)",
+               "coarse frequency / periodicity are not part of this property's quantifier (C13)",
                "reported level compared on the storage's active steps; with blocks only when start level = end level "
                "(otherwise the level jumps at block boundaries by construction)",
                "tolerance 1e-6*(1+largest bound) (x10 for MIP)"]
@@ -90,8 +98,98 @@ def d7_class(a, T):
     return False
 
 
+@st.composite
+def _holding(draw):
+    """a storage with a maximum holding duration on a grid whose steps may differ in length; the duration sits
+    strictly between two attainable run lengths (where windows at different positions differ in step count)"""
+    kind = draw(st.sampled_from(["dst_day", "dst_day", "month", "uniform"]))
+    if kind == "month":
+        g = {"start": draw(st.sampled_from(["2021-01-01 00:00", "2020-02-01 00:00", "2021-06-01 00:00"])),
+             "T": draw(st.integers(3, 6)), "freq": "MS", "mtu": draw(st.sampled_from(["h", "d"])),
+             "tz": draw(st.sampled_from([None, "CET"]))}
+    elif kind == "dst_day":
+        date, tz = draw(st.sampled_from([("2021-03-26", "CET"), ("2021-03-27", "CET"), ("2021-10-29", "CET"),
+                                         ("2021-03-12", "America/New_York"), ("2021-11-05", "America/New_York")]))
+        g = {"start": date + " 00:00", "T": draw(st.integers(3, 6)), "freq": "d",
+             "mtu": draw(st.sampled_from(["h", "d", "min"])), "tz": tz}
+    else:
+        g = draw(gen.grids(min_T=3, max_T=6))
+    dt = tl.dt(g)
+    T = g["T"]
+    # attainable run lengths = sums of consecutive steps; the duration lies strictly between two neighbouring ones
+    # (or above the longest), so every threshold at which windows of different position differ is hit, never a tie
+    sums = sorted({round(float(dt[i:j + 1].sum()), 9) for i in range(T) for j in range(i, T)})
+    k = draw(st.integers(0, len(sums) - 1))
+    D = (sums[k] + sums[k + 1]) / 2 if k + 1 < len(sums) else sums[k] * 1.25
+    a = {"type": "storage", "name": "s0", "nodes": ["n0"], "size": 8.0, "cap_in": 8.0 / float(dt.min()),
+         "cap_out": 8.0 / float(dt.min()), "start_level": 0.0, "end_level": 0.0, "eff_in": 1.0, "inflow": 0.0,
+         "cost_in": 0.0, "cost_out": 0.0, "cost_store": 0.0, "price": None, "wacc": 0.0, "start": None, "end": None,
+         "max_store_duration": D}
+    return {"kind": "holding", "grid": g, "prices": {"p0": [1.0] * T}, "assets": [a]}
+
+
 def strategy(tier):
-    return _strategy()
+    return st.one_of(_strategy(), _strategy(), _strategy(), _holding())
+
+
+def check_holding(spec, out):
+    """all 2^T patterns of 'level may be non-zero at the end of step t': pinned in EAO's problem, feasible iff
+    every run of consecutive non-empty steps lasts no longer than the maximum holding duration"""
+    import itertools
+    g = spec["grid"]
+    a = spec["assets"][0]
+    T = g["T"]
+    dt = tl.dt(g)
+    D = a["max_store_duration"]
+    out.label("holding_patterns", "steps:" + ("unequal" if len(set(np.round(dt, 9))) > 1 else "equal"))
+    assets, _ = build.build_assets(spec)
+    op = core.eao_call(assets[0].setup_optim_problem, build.build_prices(spec), build.build_grid(g))
+    if is_err(op):
+        return out.fail("set-up of a storage with max_store_duration raised " + op.short())
+    mp = op.mapping
+    mb = mp[mp["var_name"] == "bool_2"]
+    mb = mb[~mb.index.duplicated(keep="first")]
+    if len(mb) != T:
+        return out.fail("expected one 'level non-zero' indicator per step, mapping has %d" % len(mb))
+    idx = np.zeros(T, int)
+    idx[mb["time_step"].values.astype(int)] = mb.index.values.astype(int)
+    raw0 = lpkit.from_op(op)
+    md = mp[mp["type"] == "d"]
+    md = md[~md.index.duplicated(keep="first")]
+    decided = 0
+    for pat in itertools.product([0, 1], repeat=T):
+        run, longest = 0.0, 0.0
+        for t in range(T):
+            run = run + dt[t] if pat[t] else 0.0
+            longest = max(longest, run)
+        expect = longest <= D
+        raw = raw0.copy()
+        raw.l[idx] = np.array(pat, float)
+        raw.u[idx] = np.array(pat, float)
+        if expect and sum(pat[:-1]):
+            # the pattern must also be usable: a level of at least 1 at the end of every non-empty step.
+            # (efficiency 1, no inflow, start level 0: level_t = -(sum of the storage's dispatch up to t))
+            # (not for the last step, where the level is the end level 0)
+            rows = np.zeros((sum(pat[:-1]), raw.n))
+            k = 0
+            for t in range(T - 1):
+                if pat[t]:
+                    for v, tau in zip(md.index.values.astype(int), md["time_step"].values.astype(int)):
+                        if tau <= t:
+                            rows[k, v] = 1.0
+                    k += 1
+            raw.add_rows(sp.csr_matrix(rows), -np.ones(rows.shape[0]), "U" * rows.shape[0])
+        feas = lpkit.feasible(raw)
+        if feas is None:
+            continue
+        decided += 1
+        if feas != expect:
+            out.fail("steps %s, maximum holding duration %g: pattern %s of non-empty steps (longest run %g) is %s by EAO"
+                     % (list(np.round(dt, 6)), D, list(pat), longest, "admitted" if feas else "excluded"))
+            break
+    out.nontrivial = decided == 2 ** T and len(set(np.round(dt, 9))) > 1
+    if decided == 2 ** T and len(set(np.round(dt, 9))) == 1:
+        out.label("equal_steps_complete")
 
 
 def flows(op, x, a, T):
@@ -118,6 +216,9 @@ def flows(op, x, a, T):
 
 def check(spec):
     out = Outcome()
+    if spec.get("kind") == "holding":
+        check_holding(spec, out)
+        return out
     g_ = spec["grid"]
     T = g_["T"]
     dt = tl.dt(g_)
